@@ -110,3 +110,20 @@ package dst
 //@ func walkDeclList
 //@ requires elems_not_nil: forall i int :: 0 <= i && i < len(list) ==> list[i] != nil
 //@ modifies nothing
+
+// ---------------------------------------------------------------------------------------------
+// NewPackage (resolve.go), a fork of go/ast's: the package scope it returns is nested in the universe
+// scope it was given (the universe is detached only while a file with failed imports is resolved), and
+// the package holds the files it was given. The same contract is discharged on go/ast.NewPackage.
+
+// The importer is the caller's: it sees the import table and a path, not the scopes being built.
+//@ func callback.importer
+//@ trusted
+//@ attr params = imports, path
+//@ modifies allbut(heap(Scope.Outer); heap(Package.Scope); heap(Package.Files))
+
+//@ func NewPackage
+//@ ensures scope_nested_in_universe: result != nil && result.Scope != nil && result.Scope.Outer == universe
+//@ ensures holds_the_files: result.Files == files
+//@ loop 1 invariant scope: pkgScope != nil && !wasAllocated(pkgScope) && pkgScope.Outer == universe
+//@ loop 3 invariant scope: pkgScope != nil && !wasAllocated(pkgScope) && pkgScope.Outer == universe
